@@ -95,6 +95,7 @@ def replay(job):
 
 
 def run(v, tier):
+    vf.build_atlas()      # the CLI under test is rebuilt from /repo's working tree
     quick = tier == "quick"
     mc = vf.tlc("MigrateOps", "MigrateOps.mc.cfg", defines={"Depth": 5 if quick else 7}, workers=8, heap="8g", timeout=2400)
     if not mc.ok:
@@ -103,6 +104,12 @@ def run(v, tier):
     r = vf.tlc("MigrateOps", "MigrateOps.sim.cfg", defines={"Depth": 8}, workers=1, heap="4g", timeout=1800,
                simulate="num=%d" % (60 if quick else 600), depth=12, tlc_seed=vf.seed())
     hists = vf.vtraces(r)
+    # every history of the directed shape add, add, apply, add, set, apply (gaps in the revision table, out-of-order files)
+    g = vf.tlc("MigrateOps", "MigrateOps.gap.cfg", workers=1, heap="4g", timeout=1200)
+    if not g.ok:
+        raise vf.Infra("MigrateOps.tla (directed histories) violates its own invariant: %s" % g.violated)
+    gh = vf.vtraces(g)
+    hists = gh + hists
     seen, uniq = set(), []
     for h in hists:
         key = json.dumps([s["op"] for s in h], sort_keys=True)
